@@ -174,12 +174,14 @@ func refEncodeValue(t *RType, v *RVal, out []byte) []byte {
 	case KI64, KDouble:
 		return put64(out, v.U)
 	case KString, KBinary:
+		encLenPos = append(encLenPos, len(out))
 		out = put32(out, uint32(len(v.B)))
 		return append(out, v.B...)
 	case KStruct:
 		return refEncodeStruct(t.Struct, v, out)
 	case KList, KSet:
 		out = append(out, wireType(t.Elem))
+		encLenPos = append(encLenPos, len(out))
 		if v.Nil {
 			return put32(out, 0)
 		}
@@ -190,6 +192,7 @@ func refEncodeValue(t *RType, v *RVal, out []byte) []byte {
 		return out
 	case KMap:
 		out = append(out, wireType(t.Key), wireType(t.Elem))
+		encLenPos = append(encLenPos, len(out))
 		if v.Nil {
 			return put32(out, 0)
 		}
@@ -437,3 +440,7 @@ func fieldOrder(j, n int) int {
 	}
 	return (j + encOrder - 1) % n
 }
+
+// encLenPos: offsets (relative to the output passed to the outermost call when it starts empty) of every
+// 32-bit length / count field the reference encoder wrote since it was last reset.
+var encLenPos []int
